@@ -212,6 +212,7 @@ def _enum_jobs(configs, max_sched, depth=2, base=4):
 
 
 PROPS["C13"] = {
+    "hang_s": 30,
     "source": "c13_queue.cc",
     "level": "exploration",
     "fuzz": False,
@@ -229,11 +230,13 @@ PROPS["C13"] = {
     "quick": {"stages": [{"kind": "replay"},
                          {"kind": "enum", "scope": "all schedules of 1x1, 1x2, 1x3, 2x1 with 0 and 1 early poll (2x1+early-poll capped at 400000 schedules per partition)",
                           "jobs": _enum_jobs([(1, 1, 0), (1, 1, 1), (1, 2, 0), (1, 2, 1), (1, 3, 0), (2, 1, 0), (2, 1, 1)], 400000)},
-                         {"kind": "rc", "procs": 4, "cases": 6000, "maxlen": 200}]},
+                         {"kind": "rc", "procs": 4, "cases": 6000, "maxlen": 200},
+                         {"kind": "rc", "source": "c13_drains.cc", "procs": 4, "cases": 40, "maxlen": 100}]},
     "thorough": {"stages": [{"kind": "replay"},
                             {"kind": "enum", "scope": "all schedules of 1x1..1x3, 2x1, 2x2, 3x1 with 0 and 1 early poll (capped at 3000000 schedules per partition)",
                              "jobs": _enum_jobs([(1, 1, 0), (1, 1, 1), (1, 2, 0), (1, 2, 1), (1, 3, 0), (1, 3, 1), (2, 1, 0), (2, 1, 1), (2, 2, 0), (3, 1, 0)], 3000000)},
-                            {"kind": "rc", "procs": 8, "cases": 100000, "maxlen": 300}]},
+                            {"kind": "rc", "procs": 8, "cases": 100000, "maxlen": 300},
+                            {"kind": "rc", "source": "c13_drains.cc", "procs": 8, "cases": 600, "maxlen": 100}]},
 }
 
 _C12_CFGS = [(s, r, v) for s in range(4) for r in (0, 1) for v in (0, 1)]
@@ -256,14 +259,14 @@ PROPS["C12"] = {
     "quick": {"stages": [{"kind": "replay"},
                          {"kind": "enum", "scope": "all schedules of S1-S4 x {fulfil,reject} x {int,void}",
                           "jobs": _enum_jobs(_C12_CFGS, 2000000, depth=1, base=3)},
-                         {"kind": "enum", "claims_exhaustive": False, "scope": "S5 x {fulfil,reject}: first 15000 schedules (depth-first order) of each of 3 partitions",
-                          "jobs": _enum_jobs([(4, 0, 0), (4, 1, 0)], 15000, depth=1, base=3)},
+                         {"kind": "enum", "claims_exhaustive": False, "scope": "S5 x {fulfil,reject} x {int,void}: first 15000 schedules (depth-first order) of each of 3 partitions",
+                          "jobs": _enum_jobs([(4, 0, 0), (4, 1, 0), (4, 0, 1), (4, 1, 1)], 15000, depth=1, base=3)},
                          {"kind": "rc", "procs": 4, "cases": 6000, "maxlen": 200}]},
     "thorough": {"stages": [{"kind": "replay"},
                             {"kind": "enum", "scope": "all schedules of S1-S4 x {fulfil,reject} x {int,void}",
                              "jobs": _enum_jobs(_C12_CFGS, 20000000, depth=1, base=3)},
-                            {"kind": "enum", "claims_exhaustive": False, "scope": "S5 x {fulfil,reject}: up to 1500000 schedules per partition (9 partitions each)",
-                             "jobs": _enum_jobs([(4, 0, 0), (4, 1, 0)], 1500000, depth=2, base=3)},
+                            {"kind": "enum", "claims_exhaustive": False, "scope": "S5 x {fulfil,reject} x {int,void}: up to 1500000 schedules per partition (9 partitions each)",
+                             "jobs": _enum_jobs([(4, 0, 0), (4, 1, 0), (4, 0, 1), (4, 1, 1)], 1500000, depth=2, base=3)},
                             {"kind": "rc", "procs": 8, "cases": 100000, "maxlen": 300}]},
 }
 
@@ -410,8 +413,10 @@ PROPS["C15"] = {
     "level_text": "Generated batches x server behaviours; OS-level interleavings between client threads are sampled, not owned. Exploration only.",
     "level_note": "A request the server never saw (sent on a connection the server had already closed) may be rejected. Time-related verdicts follow the 3x replay rule. Requests stay far below the socket buffer size.",
     "assumptions": ["250 ms of slack between the server finishing a response and the request's time-out is enough for loopback delivery"],
-    "quick": {"stages": [{"kind": "replay"}, {"kind": "rc", "procs": 6, "cases": 18, "maxlen": 400}]},
-    "thorough": {"stages": [{"kind": "replay"}, {"kind": "rc", "procs": 8, "cases": 600, "maxlen": 400}]},
+    "quick": {"stages": [{"kind": "replay"}, {"kind": "rc", "procs": 6, "cases": 18, "maxlen": 400},
+                         {"kind": "rc", "source": "c15_foreign_fd.cc", "procs": 4, "cases": 30, "maxlen": 100}]},
+    "thorough": {"stages": [{"kind": "replay"}, {"kind": "rc", "procs": 8, "cases": 600, "maxlen": 400},
+                            {"kind": "rc", "source": "c15_foreign_fd.cc", "procs": 8, "cases": 400, "maxlen": 100}]},
 }
 
 PROPS["C09"] = {
